@@ -203,13 +203,31 @@ def distance_increments(ctx: Ctx) -> dict[str, tuple[Optional[Lin], ast.AST, str
     # preprocess: abstract / concrete equations (aggregations over the table / over get_distance_to_terminal of the fields)
     p = ctx.fn(PREPROCESS)
     env0 = _dist_env()
-    for a in walk_local(p.node, include_nested=True):
+    # preprocess and the helper methods / functions of the grammar module it calls
+    srcs = [p]
+    for x in walk_local(p.node, include_nested=True):
+        if isinstance(x, ast.Call):
+            t_ = ctx.res.resolve(p, x)
+            if t_.kind == "repo":
+                srcs += [g_ for g_ in t_.targets if g_.module is p.module and g_ not in srcs and g_.name not in ("get_distance_to_terminal",)]
+    nodes = [n_ for g_ in srcs for n_ in walk_local(g_.node, include_nested=True)]
+    for a in nodes:
         if isinstance(a, ast.Assign) and len(a.targets) == 1 and isinstance(a.targets[0], ast.Name) and isinstance(a.value, ast.Call) \
                 and call_name(a.value) == "int":
             env0.vars[a.targets[0].id] = evaluate(env0, a.value)
-    for c in walk_local(p.node, include_nested=True):
+    for c in nodes:
         if not (isinstance(c, ast.Call) and isinstance(c.func, ast.Name) and c.func.id in ("min", "max")):
             continue
+        # an aggregate inside an arithmetic expression (1 + max(...)): evaluate the whole expression
+        top = c
+        while isinstance(parent(top), ast.BinOp):
+            top = parent(top)
+        if top is not c and len(c.args) == 1 and isinstance(c.args[0], (ast.GeneratorExp, ast.ListComp)):
+            v = evaluate(env0.copy(), top)
+            if isinstance(v, Lin) and "R" in v.coef and v - Lin.sym("R") != Lin.c(0):
+                uses_gdt = any(isinstance(x, ast.Call) and call_name(x) == "get_distance_to_terminal" for x in ast.walk(top))
+                out["concrete" if uses_gdt else "abstract"] = (v - Lin.sym("R"), c, norm(top)[:70], c.func.id)
+                continue
         cands: list[ast.AST] = []
         args = list(c.args)
         if len(args) == 1 and isinstance(args[0], ast.BinOp) and isinstance(args[0].op, ast.Add):
